@@ -48,6 +48,8 @@ inductive Callback
   | setTo (v2 : Val)
   /-- updates another characteristic: `other.set_value(w)` -/
   | setOther (y : Cid) (w : Val)
+  /-- raises (the device could not be reached): `_wrap_char_setter` answers -70402 for this query -/
+  | raise
   deriving DecidableEq, Repr
 
 /-- Static description of the accessory plus the two repair switches
@@ -57,7 +59,7 @@ structure Cfg where
   imm : Cid → Bool
   /-- `type_id in ALWAYS_NULL` -/
   nul : Cid → Bool
-  /-- the characteristic's `setter_callback` (raising callbacks are outside the alphabet: DESIGN §9) -/
+  /-- the characteristic's `setter_callback` -/
   cb : Cid → Callback := fun _ => Callback.none
   /-- design/fixes/C12.patch applied (`discard_stale_event` after a successful controller write) -/
   fix12 : Bool := true
@@ -65,6 +67,12 @@ structure Cfg where
   fix13 : Bool := true
   /-- design/fixes/C12-resubscribe.patch applied (`discard_event` when a client unsubscribes) -/
   fixResub : Bool := true
+  /-- design/fixes/C12-failed-write.patch applied (`client_update_value` restores the previous value
+      when the setter callback raises; without it the written value stays stored and nobody is told) -/
+  fixRaise : Bool := true
+  /-- design/fixes/C12-stale-handoff.patch applied (a hand-off from a worker thread whose captured value
+      is no longer the value of the characteristic is dropped by the loop) -/
+  fixHand : Bool := true
 
 /-! ### dict-like association list (the per-connection `_event_queue`) -/
 
@@ -118,6 +126,8 @@ inductive Body
   | value (v : Option Val)
   | status (n : Int)
   | image
+  /-- 207 Multi-Status: one status per written characteristic (0 or -70402), in request order -/
+  | multi (l : List (Cid × Int))
   deriving DecidableEq, Repr
 
 /-- What the transports see. -/
@@ -332,6 +342,7 @@ def runCallback (c : Cfg) (s : St) (x : Cid) (v : Val) : St :=
   | .echo => writeVal c s x v none
   | .setTo v2 => writeVal c s x v2 none
   | .setOther y w => writeVal c s y w none
+  | .raise => s   -- not reached: a raising callback is dealt with in `putChars` (`failVal`)
 
 /-- `Characteristic.client_update_value(v, sender)` in statement order: `previous_value`, assign,
     callback, `changed = self._value != previous_value`, `notify(sender)` iff changed (it publishes
@@ -374,7 +385,11 @@ def appSetWorker (c : Cfg) (s : St) (x : Cid) (v : Val) : St :=
 def handOff (c : Cfg) (s : St) : St :=
   match s.handoffs with
   | [] => s
-  | (x, v) :: rest => publish c { s with handoffs := rest } x v none
+  | (x, v) :: rest =>
+    -- `_async_send_deferred_event`: overtaken by a newer change (which publishes itself) -> dropped;
+    -- characteristics that hold no value (always-null: every event is an occurrence) are never dropped
+    if c.fixHand ∧ s.value x ≠ none ∧ s.value x ≠ some v then { s with handoffs := rest }
+    else publish c { s with handoffs := rest } x v none
 
 /-- `_notify`: the `ev` member of a write query -/
 def putSub (c : Cfg) (s : St) (p : ObjId) (x : Cid) (ev : Option Bool) : St :=
@@ -392,12 +407,41 @@ def putVal (c : Cfg) (s : St) (p : ObjId) (x : Cid) (v : Val) : St :=
   let s5 := discardStale c (clientUpdate c s x v (some a)) a x
   { s5 with obj := upd s5.obj p { s5.obj p with learned := upd (s5.obj p).learned x (some v) } }
 
+/-- the setter callback of `x` raises -/
+def cbFails (c : Cfg) (x : Cid) : Bool :=
+  match c.cb x with
+  | .raise => true
+  | _ => false
+
+/-- a `value` member whose setter callback raises: `client_update_value` has assigned the value and
+    the exception skips `notify` and the always-null reset; `_wrap_char_setter` turns it into status
+    -70402, so there is no stale-entry discard and the writer has no acknowledged write. With the
+    repair (`fixRaise`) the previous value is restored before the exception propagates. -/
+def failVal (c : Cfg) (s : St) (x : Cid) (v : Val) : St :=
+  if c.fixRaise then s else setVal s x v
+
 /-- `AccessoryDriver.set_characteristics` for one query from a verified connection -/
 def putChars (c : Cfg) (s : St) (p : ObjId) (x : Cid) (ev : Option Bool) (val : Option Val) : St :=
   let s1 := putSub c s p x ev
   match val with
   | none => s1
-  | some v => putVal c s1 p x v
+  | some v => if cbFails c x then failVal c s1 x v else putVal c s1 p x v
+
+/-- the per-characteristic statuses of a write request (queries without a `value` member are not
+    answered) -/
+def putStatus (c : Cfg) (qs : List (Cid × Option Bool × Option Val)) : List (Cid × Int) :=
+  qs.filterMap (fun q => match q.2.2 with
+                         | some _ => some (q.1, if cbFails c q.1 then (-70402 : Int) else 0)
+                         | none => none)
+
+def putFailed (c : Cfg) (qs : List (Cid × Option Bool × Option Val)) : Bool :=
+  (putStatus c qs).any (fun e => e.2 ≠ 0)
+
+/-- 204 when every written characteristic succeeded, else 207 Multi-Status -/
+def putCode (c : Cfg) (qs : List (Cid × Option Bool × Option Val)) : Nat := if putFailed c qs then 207 else 204
+
+def putBody (c : Cfg) (qs : List (Cid × Option Bool × Option Val)) : Body :=
+  if putFailed c qs then Body.multi (putStatus c qs) else Body.none
 
 /-- `AccessoryDriver.prepare` -/
 def addPid (l : Option (List Pid)) (pid : Pid) : Option (List Pid) :=
@@ -412,7 +456,7 @@ def touch (s : St) (p : ObjId) : St := { s with obj := upd s.obj p { s.obj p wit
     with `Connection: close` h11 is in MUST_CLOSE after the response: `finish_and_close()` -/
 def onPut (c : Cfg) (s : St) (p : ObjId) (x : Cid) (ev : Option Bool) (val : Option Val) (cl : Bool) :
     St × List Out :=
-  let r := if (s.obj p).verified then respond (putChars c s p x ev val) p 204 Body.none
+  let r := if (s.obj p).verified then respond (putChars c s p x ev val) p (putCode c [(x, ev, val)]) (putBody c [(x, ev, val)])
            else respond s p 401 Body.none
   if cl then ((closeP c r.1 p).1, r.2 ++ (closeP c r.1 p).2) else r
 
@@ -426,7 +470,7 @@ def putAll (c : Cfg) (s : St) (p : ObjId) (qs : List (Cid × Option Bool × Opti
 
 def onPutMany (c : Cfg) (s : St) (p : ObjId) (qs : List (Cid × Option Bool × Option Val)) (cl : Bool) :
     St × List Out :=
-  let r := if (s.obj p).verified then respond (putAll c s p qs) p 204 Body.none
+  let r := if (s.obj p).verified then respond (putAll c s p qs) p (putCode c qs) (putBody c qs)
            else respond s p 401 Body.none
   if cl then ((closeP c r.1 p).1, r.2 ++ (closeP c r.1 p).2) else r
 
